@@ -171,6 +171,15 @@ def run(ctx):
         cuts = [p for i, p in enumerate(pts) if mask >> i & 1]
         cases.append((tiny, split_at(tiny, cuts)))
         meta["exhaustive_partitions"] += 1
+    if ctx.get("replay"):
+        import json
+        rp = json.load(open(ctx["replay"]))["replay"]
+        if rp.get("leg") == "handshake":
+            handshake_leg(ctx, rep, rnd, tier)
+            cases = []
+        else:
+            chunks = [bytes.fromhex("" if x == "-" else x) for x in rp["cmd"].split(" ")[2:]]
+            cases = [(b"".join(chunks), chunks)]
     lines = ["load m " + " ".join(vlib.hexs(c) for c in chunks) for _, chunks in cases]
     oneshot = ["load m " + vlib.hexs(s) for s, _ in cases]
     impl, icr = vlib.run_lines(info["wire_h"], lines)
@@ -194,7 +203,7 @@ def run(ctx):
         elif outcome(i) != outcome(m):
             rep.violation("loader outcome differs from model for chunks %s: impl %s vs model %s" % ([len(c) for c in chunks][:40], i[:120], m[:120]),
                           {"cmd": l, "impl": i, "model": m, "names": "correspondence wire_h/load (chunked) vs Wire.Message.feed_all"}, found_input=False)
-    n_hs = handshake_leg(ctx, rep, rnd, tier)
+    n_hs = handshake_leg(ctx, rep, rnd, tier) if not ctx.get("replay") else 0
     meta["handshake_partitions"] = n_hs
     rep.coverage.update({
         "evaluations": len(cases) + n_hs, "distinct_nontrivial": len(nontrivial),
